@@ -246,6 +246,14 @@ var funcSeams = map[string]string{
 	"os.Create":             "OsCreate",
 	"os.Open":               "OsOpen",
 	"os.MkdirAll":           "OsMkdirAll",
+	"os.OpenFile":           "OsOpenFile",
+	"os.Remove":             "OsRemove",
+	"os.RemoveAll":          "OsRemoveAll",
+	"os.Rename":             "OsRename",
+	"os.WriteFile":          "OsWriteFile",
+	"os.ReadFile":           "OsReadFile",
+	"os.Stat":               "OsStat",
+	"os.Mkdir":              "OsMkdir",
 	"os.Exit":               "OsExit",
 	"crypto/rand.Read":      "RandRead",
 	"math/rand.Int":         "RandInt",
